@@ -1,7 +1,7 @@
 (* C08, second sentence: the order of names in -type=A,B changes no file content (for generators that do not read
    generated files; new -getset with embedding is the open finding K_embed_order). *)
-From Coq Require Import List String Ascii Bool Arith Lia Permutation.
-From Shoot Require Import Model.Gen Proofs.GenBaseProofs Proofs.GenProofs Proofs.GenSigmaProofs Proofs.GenSeqProofs.
+From Coq Require Import List ListDec String Ascii Bool Arith Lia Permutation.
+From Shoot Require Import Model.Gen Proofs.GenBaseProofs Proofs.GenProofs Proofs.GenSigmaProofs Proofs.GenMapSigmaProofs Proofs.GenSeqProofs.
 Import ListNotations.
 Local Open Scope string_scope.
 
@@ -135,6 +135,20 @@ Section Perm.
       + split; auto. intros _. exists x. split; [left; auto | auto].
   Qed.
 
+  Definition genb (cc : cmd) (T : string) : bool := match alone (mk cc) hw st0 T with MOk _ _ _ => true | _ => false end.
+
+  Lemma sources_keys : forall cc fm types l,
+    sources (mk cc) render hw cc st0 fm types = Some l -> keys l = map (out_name hw cc fm) (filter (genb cc) types).
+  Proof.
+    intros cc fm. induction types as [|x r IH]; intros l H.
+    - cbn in H. injection H as <-. reflexivity.
+    - cbn [sources] in H. cbn [filter]. unfold genb at 1.
+      destruct (alone (mk cc) hw st0 x) as [d s st'|st'|] eqn:E; [| |discriminate].
+      + destruct (sources (mk cc) render hw cc st0 fm r) as [l'|] eqn:E'; [|discriminate]. injection H as <-.
+        unfold keys in *. cbn [map fst]. rewrite (IH l' eq_refl). reflexivity.
+      + apply IH. exact H.
+  Qed.
+
   Lemma sources_keys_nodup : forall cc fm types l,
     NoDup (map (out_name hw cc fm) types) -> sources (mk cc) render hw cc st0 fm types = Some l -> NoDup (keys l).
   Proof.
@@ -179,6 +193,43 @@ Section Transfer.
   Qed.
 End Transfer.
 
+
+(* the strict source map: Some exactly when the file names are pairwise distinct (and new) *)
+Lemma fold_strict_ok : forall (l m : gfiles),
+  NoDup (keys l) -> (forall k, In k (keys l) -> ~ In k (keys m)) -> fold_strict l m = Some (fold_left ups l m).
+Proof.
+  induction l as [|[k v] l IH]; intros m Hn Hd; cbn [fold_strict fold_left]; auto.
+  inversion Hn as [|? ? Hk Hn']; subst. cbn [fst snd].
+  assert (Ea : ahas k m = false).
+  { destruct (ahas k m) eqn:E; auto. apply ahas_in in E. exfalso. apply (Hd k); [left; auto | exact E]. }
+  rewrite Ea. apply IH; auto.
+  intros k' Hk' Hin. apply (upsert_keys_in k v m k') in Hin. destruct Hin as [->|Hin]; [contradiction|].
+  apply (Hd k'); [right; auto | exact Hin].
+Qed.
+
+Lemma fold_strict_some : forall (l m x : gfiles), fold_strict l m = Some x -> NoDup (keys l).
+Proof.
+  induction l as [|[k v] l IH]; intros m x H; cbn [fold_strict] in H; [constructor|].
+  cbn [fst snd] in H. destruct (ahas k m) eqn:Ea; [discriminate|].
+  constructor; [|eapply IH; eauto].
+  intros Hin. clear IH.
+  assert (G : forall l0 m0 x0, In k (keys l0) -> In k (keys m0) -> fold_strict l0 m0 = Some x0 -> False).
+  { induction l0 as [|[k' v'] l0 IHl]; intros m0 x0 Hl Hm Hf; [destruct Hl|].
+    cbn [fold_strict fst snd] in Hf. destruct (ahas k' m0) eqn:E'; [discriminate|].
+    destruct Hl as [E|Hl].
+    - cbn in E. subst k'. apply ahas_in in Hm. congruence.
+    - eapply IHl; [exact Hl | | exact Hf]. apply (upsert_keys_in k' v' m0 k). right. exact Hm. }
+  eapply G; [exact Hin | | exact H]. apply (upsert_keys_in k v m k). left. reflexivity.
+Qed.
+
+Lemma Permutation_filter_ : forall {A} (f : A -> bool) l l', Permutation l l' -> Permutation (filter f l) (filter f l').
+Proof.
+  intros A f l l' H. induction H; cbn; auto.
+  - destruct (f x); auto.
+  - destruct (f x), (f y); auto. apply perm_swap.
+  - eapply perm_trans; eauto.
+Qed.
+
 Lemma same_body_sym : forall {D S} (r : S -> D -> afile) (a b : mres D S), same_body r r a b -> same_body r r b a.
 Proof. intros D S r [d1 s1 st1|st1|] [d2 s2 st2|st2|]; cbn; auto. intros [-> H]. auto. Qed.
 
@@ -197,14 +248,13 @@ Section PermMain.
     Permutation (c_types c) (c_types c') -> c_file c = c_file c' -> c_sub c = c_sub c' ->
     c_star c = false -> c_star c' = false ->
     (forall T st0 v, same_body render render (mk c st0 v T) (mk c' st0 v T)) ->
-    NoDup (map (out_name hw c (spec_fmap c o (mk_view hw disk []))) (c_types c)) ->
     match generate (mk c) render lt c o hw disk st, generate (mk c') render lt c' o hw disk st' with
     | Some sm, Some sm' => map nb (listing sm) = map nb (listing sm')
     | None, None => True
     | _, _ => False
     end.
   Proof.
-    intros c c' o disk st st' Hs Hs' Hperm Hfile Hsub Hst Hst' Hsim Hnames.
+    intros c c' o disk st st' Hs Hs' Hperm Hfile Hsub Hst Hst' Hsim.
     rewrite (generate_blind (mk c) render (Hmake c) hw (Hblind c) lt c o st disk st).
     rewrite (generate_blind (mk c') render (Hmake c') hw (Hblind c') lt c' o st disk st').
     rewrite (confirm_specified_spec lt c o _ Hs), (confirm_specified_spec lt c' o _ Hs'). rewrite <- Hfile.
@@ -220,15 +270,14 @@ Section PermMain.
     assert (Hsepc : separate c = true) by (unfold separate; rewrite Hs; reflexivity).
     assert (Hsepc' : separate c' = true) by (unfold separate; rewrite Hs'; reflexivity).
     assert (Main : forall fm fm',
-               NoDup (map (out_name hw c fm) (c_types c)) ->
                (forall T, alookup T fm = alookup T fm') ->
                match match sources (mk c) render hw c st fm (c_types c) with
-                     | Some l => if separate c then Some (fold_left ups l []) else
+                     | Some l => if separate c then fold_strict l [] else
                                    match merge (map snd l) with Some m => Some [(out_name hw c fm "", m)] | None => Some [] end
                      | None => None
                      end,
                      match sources (mk c') render hw c' st fm' (c_types c') with
-                     | Some l => if separate c' then Some (fold_left ups l []) else
+                     | Some l => if separate c' then fold_strict l [] else
                                    match merge (map snd l) with Some m => Some [(out_name hw c' fm' "", m)] | None => Some [] end
                      | None => None
                      end with
@@ -236,35 +285,46 @@ Section PermMain.
                | None, None => True
                | _, _ => False
                end).
-    { intros fm fm' Hnm0 Hfm. rewrite Hsepc, Hsepc'.
+    { intros fm fm' Hfm. rewrite Hsepc, Hsepc'.
       assert (Hsim0 : forall T, same_body render render (alone (mk c) hw st T) (alone (mk c') hw st T))
         by (intros T; apply Hsim).
       assert (Hnm : forall T, out_name hw c fm T = out_name hw c' fm' T).
       { intros T. unfold out_name, all_in_one_file. rewrite Hst, Hst', !andb_false_r. unfold file_name. rewrite Hfile, Hsub, Hfm. reflexivity. }
       destruct (sources (mk c) render hw c st fm (c_types c)) as [l|] eqn:El;
         destruct (sources (mk c') render hw c' st fm' (c_types c')) as [l'|] eqn:El'; auto.
-      - (* both generate *)
-        assert (Nl : NoDup (keys l)) by (eapply sources_keys_nodup; [exact Hnm0 | exact El]).
-        assert (Nl' : NoDup (keys l')).
-        { eapply sources_keys_nodup; [|exact El'].
-          assert (Em : map (out_name hw c' fm') (c_types c') = map (out_name hw c fm) (c_types c'))
+      - (* both analyses succeed *)
+        assert (Hk : Permutation (keys l) (keys l')).
+        { rewrite (sources_keys mk render hw st c fm _ _ El), (sources_keys mk render hw st c' fm' _ _ El').
+          assert (Eg : forall T, genb mk hw st c' T = genb mk hw st c T).
+          { intros T. unfold genb. pose proof (Hsim0 T) as H0.
+            destruct (alone (mk c) hw st T); destruct (alone (mk c') hw st T); cbn in H0; try contradiction; reflexivity. }
+          rewrite (filter_ext _ _ Eg).
+          assert (Em : map (out_name hw c' fm') (filter (genb mk hw st c) (c_types c')) =
+                       map (out_name hw c fm) (filter (genb mk hw st c) (c_types c')))
             by (apply map_ext; intros T; symmetry; apply Hnm).
-          rewrite Em. eapply Permutation_NoDup; [apply Permutation_map; exact Hperm | exact Hnm0]. }
-        rewrite !listing_nb. apply sorted_assoc_eq.
-        + unfold keys. rewrite map_map. cbn. apply (fold_ups_nodup l []). constructor.
-        + unfold keys. rewrite map_map. cbn. apply (fold_ups_nodup l' []). constructor.
-        + intros k. unfold nb. rewrite !alookup_map_snd, !alookup_fold_ups by auto. cbn [alookup].
-          destruct (alookup k l) as [src|] eqn:Ek.
-          * apply (alookup_in k src l Nl) in Ek.
-            destruct (lookup_transfer mk render hw st c c' fm fm' (c_types c) (c_types c') l l' k src
-                        (fun T H => proj1 (Hin T) H) (fun T _ => Hnm T) Hsim0 El El' Nl' Ek) as [src' [E' Hb]].
-            rewrite E'. cbn. rewrite Hb. reflexivity.
-          * destruct (alookup k l') as [src'|] eqn:Ek'; auto.
-            apply (alookup_in k src' l' Nl') in Ek'.
-            destruct (lookup_transfer mk render hw st c' c fm' fm (c_types c') (c_types c) l' l k src'
-                        (fun T H => proj2 (Hin T) H) (fun T _ => eq_sym (Hnm T))
-                        (fun T => same_body_sym render _ _ (Hsim0 T)) El' El Nl Ek') as [src2 [E2 _]].
-            congruence.
+          rewrite Em. apply Permutation_map, Permutation_filter_. exact Hperm. }
+        destruct (NoDup_dec string_dec (keys l)) as [Nl|Nnl].
+        + assert (Nl' : NoDup (keys l')) by (eapply Permutation_NoDup; eauto).
+          rewrite (fold_strict_ok l [] Nl), (fold_strict_ok l' [] Nl') by (intros k _ []).
+          rewrite !listing_nb. apply sorted_assoc_eq.
+          * unfold keys. rewrite map_map. cbn. apply (fold_ups_nodup l []). constructor.
+          * unfold keys. rewrite map_map. cbn. apply (fold_ups_nodup l' []). constructor.
+          * intros k. unfold nb. rewrite !alookup_map_snd, !alookup_fold_ups by auto. cbn [alookup].
+            destruct (alookup k l) as [src|] eqn:Ek.
+            -- apply (alookup_in k src l Nl) in Ek.
+               destruct (lookup_transfer mk render hw st c c' fm fm' (c_types c) (c_types c') l l' k src
+                           (fun T H => proj1 (Hin T) H) (fun T _ => Hnm T) Hsim0 El El' Nl' Ek) as [src' [E' Hb]].
+               rewrite E'. cbn. rewrite Hb. reflexivity.
+            -- destruct (alookup k l') as [src'|] eqn:Ek'; auto.
+               apply (alookup_in k src' l' Nl') in Ek'.
+               destruct (lookup_transfer mk render hw st c' c fm' fm (c_types c') (c_types c) l' l k src'
+                           (fun T H => proj2 (Hin T) H) (fun T _ => eq_sym (Hnm T))
+                           (fun T => same_body_sym render _ _ (Hsim0 T)) El' El Nl Ek') as [src2 [E2 _]].
+               congruence.
+        + (* two selected types share an output file: both runs refuse *)
+          destruct (fold_strict l []) as [x|] eqn:F1; [exfalso; apply Nnl; eapply fold_strict_some; eauto|].
+          destruct (fold_strict l' []) as [x'|] eqn:F2; [|exact I].
+          exfalso. apply Nnl. eapply Permutation_NoDup; [apply Permutation_sym; exact Hk | eapply fold_strict_some; eauto].
       - (* c generates, c' is fatal *)
         apply (sources_none mk render hw st c' fm' (c_types c')) in El'. destruct El' as [T [HT Ha]].
         pose proof (sources_lookup mk render hw st c fm (c_types c) l El T (proj2 (Hin T) HT)) as Hl.
@@ -272,16 +332,15 @@ Section PermMain.
       - apply (sources_none mk render hw st c fm (c_types c)) in El. destruct El as [T [HT Ha]].
         pose proof (sources_lookup mk render hw st c' fm' (c_types c') l' El' T (proj1 (Hin T) HT)) as Hl.
         pose proof (Hsim0 T) as Hs0. rewrite Ha in Hs0. destruct (alone (mk c') hw st T); cbn in Hs0; contradiction. }
-    unfold spec_fmap in Hnames. fold g in Hnames.
     destruct (c_file c =? "") eqn:Ef.
-    - apply Main; [exact Hnames|]. intros T. rewrite !fmap_lookup.
+    - apply Main. intros T. rewrite !fmap_lookup.
       assert (Esm : smem T (c_types c) = smem T (c_types c')).
       { destruct (smem T (c_types c)) eqn:E1; symmetry.
         - apply smem_in. apply Hin. apply smem_in. exact E1.
         - destruct (smem T (c_types c')) eqn:E2; auto. apply smem_in in E2. apply Hin in E2. apply smem_in in E2. congruence. }
       rewrite Esm. reflexivity.
     - rewrite <- Hall. destruct (forallb (fun T => c_file c =? g T) (c_types c)); [|exact I].
-      apply Main; [exact Hnames | reflexivity].
+      apply Main. reflexivity.
   Qed.
 End PermMain.
 
@@ -290,7 +349,6 @@ Theorem enum_permutation : forall c c' hw o disk st st',
   specified c = true -> specified c' = true ->
   Permutation (c_types c) (c_types c') -> c_file c = c_file c' -> c_sub c = c_sub c' ->
   c_star c = false -> c_star c' = false -> c_ejson c = c_ejson c' -> c_etext c = c_etext c' ->
-  NoDup (map (out_name hw c (spec_fmap c o (mk_view hw disk []))) (c_types c)) ->
   match generate (enum_make c) enum_render (list_types_of CEnum) c o hw disk st,
         generate (enum_make c') enum_render (list_types_of CEnum) c' o hw disk st' with
   | Some sm, Some sm' => map nb (listing sm) = map nb (listing sm')
@@ -298,17 +356,16 @@ Theorem enum_permutation : forall c c' hw o disk st st',
   | _, _ => False
   end.
 Proof.
-  intros c c' hw o disk st st' Hs Hs' Hp Hf Hsub H1 H2 Hj Ht Hn.
+  intros c c' hw o disk st st' Hs Hs' Hp Hf Hsub H1 H2 Hj Ht.
   apply (permutation_changes_no_content enum_make enum_render enum_same_out hw (fun c0 => enum_blind c0 _) (list_types_of CEnum)
            c c' o disk st st' Hs Hs' Hp Hf Hsub H1 H2); auto.
-  intros T st0 v. apply enum_cmd_sim; auto.
+  intros T st0 v. apply enum_cmd_sim; auto. congruence.
 Qed.
 
 Theorem rest_permutation : forall ro c c' hw o disk st st',
   specified c = true -> specified c' = true ->
   Permutation (c_types c) (c_types c') -> c_file c = c_file c' -> c_sub c = c_sub c' ->
   c_star c = false -> c_star c' = false ->
-  NoDup (map (out_name hw c (spec_fmap c o (mk_view hw disk []))) (c_types c)) ->
   match generate (rest_make ro c) rrender (list_types_of CRest) c o hw disk st,
         generate (rest_make ro c') rrender (list_types_of CRest) c' o hw disk st' with
   | Some sm, Some sm' => map nb (listing sm) = map nb (listing sm')
@@ -316,7 +373,7 @@ Theorem rest_permutation : forall ro c c' hw o disk st st',
   | _, _ => False
   end.
 Proof.
-  intros ro c c' hw o disk st st' Hs Hs' Hp Hf Hsub H1 H2 Hn.
+  intros ro c c' hw o disk st st' Hs Hs' Hp Hf Hsub H1 H2.
   apply (permutation_changes_no_content (rest_make ro) rrender (rest_same_out ro) hw (fun c0 => rest_blind ro c0 _) (list_types_of CRest)
            c c' o disk st st' Hs Hs' Hp Hf Hsub H1 H2); auto.
   intros T st0 v. apply rest_cmd_sim.
